@@ -118,10 +118,11 @@ Definition stored_packet (v : list N) : option (list N) :=
   match decode_value v with DecOk p _ => Some p | _ => None end.
 
 (* no API call may panic (the harness reports a recovered panic as class bit 2^21) *)
+(* 2^21: recovered panic; 2^22: the call did not return within one virtual hour (wedged) *)
 Definition ret_panicked (r : retv) : bool :=
   match r with
-  | RetErr e => has_bit e 2097152
-  | RetAdopt _ e => has_bit e 2097152
+  | RetErr e => has_bit e 2097152 || has_bit e 4194304
+  | RetAdopt _ e => has_bit e 2097152 || has_bit e 4194304
   | _ => false
   end.
 Definition no_panic (t : list tev) : bool :=
